@@ -31,6 +31,27 @@ bool make_raw(std::string const& v, int w, int h, uint64_t cs, Bytes& out)
     if (v == "rgb8") return write_with_gil<gil::rgb8_image_t, Tag>(w, h, cs, out, "jpg", mode);
     if (v == "cmyk8") return write_with_gil<gil::cmyk8_image_t, Tag>(w, h, cs, out, "jpg", mode);
     if (v == "rgb8q50") { gil::image_write_info<Tag> info; info._quality = 50; return write_with_gil_info<gil::rgb8_image_t, Tag>(w, h, cs, out, info, 0); }
+    if (v == "rgb8com" || v == "gray8app")
+    {
+        // gil's writer (libjpeg) only emits a 16-byte APP0, which libjpeg parses itself. Files from cameras and editors carry
+        // COM / APPn segments that the reader must *skip* (skip_input_data of gil's source manager), possibly across several
+        // refills of its buffer: insert one or two such segments after APP0
+        if (!make_raw(v == "rgb8com" ? "rgb8" : "gray8", w, h, cs, out)) return false;
+        if (out.size() < 20 || out[2] != 0xFF || out[3] != 0xE0) return true;
+        size_t at = 4 + ((size_t)out[4] << 8 | out[5]);
+        Rng r(cs ^ 0xC0FFEE);
+        Bytes seg;
+        int nseg = v == "rgb8com" ? 1 : 2;
+        for (int k = 0; k < nseg; ++k)
+        {
+            size_t len = (size_t)r.pick({10, 300, 1100, 2100, 5000});
+            seg.push_back(0xFF); seg.push_back(v == "rgb8com" ? 0xFE : (unsigned char)(0xE1 + k));
+            seg.push_back((unsigned char)((len + 2) >> 8)); seg.push_back((unsigned char)((len + 2) & 0xFF));
+            for (size_t q = 0; q < len; ++q) seg.push_back((unsigned char)r.below(256));
+        }
+        out.insert(out.begin() + (std::ptrdiff_t)at, seg.begin(), seg.end());
+        return true;
+    }
     return false;
 }
 
@@ -90,6 +111,7 @@ Outcome roundtrip(Json const& plan)
     gil::image_write_info<Tag> info; // default quality 100
     if (v == "gray8") return RoundTrip<Tag, gil::gray8_image_t, false, true>::run(plan, "jpg", info);
     if (v == "rgb8") return RoundTrip<Tag, gil::rgb8_image_t, true, true>::run(plan, "jpg", info);
+    if (v == "bgr8") return RoundTrip<Tag, gil::bgr8_image_t, true, true>::run(plan, "jpg", info);
     if (v == "cmyk8") return RoundTrip<Tag, gil::cmyk8_image_t, true, true>::run(plan, "jpg", info);
     Outcome o; o.cls = "skipped:type"; return o;
 }
@@ -107,7 +129,7 @@ Outcome paths(Json const& plan)
     Bytes bytes;
     if (!make(v, (int)plan.num("w", 1), (int)plan.num("h", 1), (uint64_t)plan.num("cseed"), bytes)) { Outcome o; o.cls = "skipped:variant"; return o; }
     PathsCfg cfg;
-    if (v == "gray8") return paths_for<gil::gray8_image_t>(plan, bytes, cfg);
+    if (v == "gray8" || v == "gray8app") return paths_for<gil::gray8_image_t>(plan, bytes, cfg);
     if (v == "cmyk8") return paths_for<gil::cmyk8_image_t>(plan, bytes, cfg);
     return paths_for<gil::rgb8_image_t>(plan, bytes, cfg);
 }
@@ -116,11 +138,11 @@ Format make_format()
 {
     Format f;
     f.name = "jpeg"; f.ext = "jpg";
-    f.variants = {{"gray8", "gray8"}, {"rgb8", "rgb8"}, {"cmyk8", "cmyk8"}, {"rgb8q50", "rgb8"}};
+    f.variants = {{"gray8", "gray8"}, {"rgb8", "rgb8"}, {"cmyk8", "cmyk8"}, {"rgb8q50", "rgb8"}, {"rgb8com", "rgb8"}, {"gray8app", "gray8"}};
     f.native_types = {"gray8", "rgb8", "cmyk8"};
     f.convert_types = {"gray8", "rgb8", "rgba8"};
     f.devices = {"FILE", "istream", "name"};
-    f.write_types = {"gray8", "rgb8", "cmyk8"};
+    f.write_types = {"gray8", "rgb8", "cmyk8", "bgr8"};
     f.roundtrip = roundtrip; f.paths = paths;
     f.make = make; f.read = read; f.fields = fields; f.declared_pixels = declared;
     return f;
